@@ -1,6 +1,5 @@
 import LentilVerif.Model.Zernike
-/-! Finite exact tables for C11, closed by `decide +kernel` (no axioms): R_n^m(1) = 1, radial Gram matrix over ℚ, and the
-literal list construction of `zernike_index` against the closed form. Kept in their own module so that they are re-checked
+/-! Finite exact tables for C11, closed by `decide +kernel` (no axioms): R_n^m(1) = 1 and the radial Gram matrix over ℚ. Kept in their own module so that they are re-checked
 only when `Model/Zernike.lean` changes (the Gram table takes about a minute). -/
 namespace Lentil
 
@@ -17,11 +16,7 @@ def allGramQ (N : Nat) : Bool :=
     (n - m) % 2 != 0 || (n' - m) % 2 != 0 ||
       gramQ n n' m == (if n = n' then (1 : Rat) / (((2 * (n + 1) : Nat) : Int) : Rat) else 0)
 
-/-- the literal code of `zernike_index` (list construction, negative index) agrees with the closed form for j = 1 … N -/
-def allCodeIndex (N : Nat) : Bool := (List.range N).all fun k => codeIndex (k + 1) == (nollM (k + 1), nollN (k + 1))
-
 theorem allAtOne_40 : allAtOne 40 = true := by decide +kernel
 theorem allGramQ_20 : allGramQ 20 = true := by decide +kernel
-theorem allCodeIndex_300 : allCodeIndex 300 = true := by decide +kernel
 
 end Lentil
